@@ -85,6 +85,13 @@ POOL = [
     "characters(digits => true).len()", 'int("12") + float("1.5")',
     '$.items.max() - $.items.min()', 'isString($.s) and isList($.items)',
     '$src.take(3).select($ + 1)', '$src.where($ mod 2 = 0).take(2).sum()',
+    # remembered iterators read more than once
+    'let(m => $src.take(5).memorize()) -> [$m.sum(), $m.len(), $m.toList()]',
+    '[1, 2, 3].join($src.take(3).select($ + 0), true, [$1, $2]).len()',
+    '$src.take(4).select($ * 2).defaultIfEmpty([0]).toList()',
+    # a member of the document that input conversion turns into a lazy
+    # sequence (a dictionary view): every evaluation gets its own
+    '$.vals.sum()', '[$.vals.len(), $.vals.toList()]',
     # context-producing calls whose arguments are literals only, in front of
     # a part that reads the document
     'let(limit => 2) -> $.items.where($ > $limit)',
@@ -107,11 +114,13 @@ POOL = [
 ]
 DOCS = [
     {'a': 3, 'b': 4, 's': 'ab a1 b2', 'items': [3, 1, 2, 2],
-     'd': {'k': [1, 2], 'j': 5}, 'none': None},
+     'd': {'k': [1, 2], 'j': 5}, 'none': None,
+     'vals': {'p': 1, 'q': 2, 'r': 4}.values()},
     {'a': -1, 'b': 0, 's': 'zzz', 'items': [5], 'd': {'k': []},
-     'none': None},
+     'none': None, 'vals': {}.values()},
     {'a': 7, 'b': 7, 's': 'a9', 'items': [2, 4, 6, 1, 1],
-     'd': {'k': [3], 'x': {'y': 1}}, 'none': None},
+     'd': {'k': [3], 'x': {'y': 1}}, 'none': None,
+     'vals': {'p': 10, 'q': 20}.values()},
 ]
 
 _PATCHED = {}
@@ -798,6 +807,7 @@ def _sys_shard(run, pairs, max_runs, max_pre):
 
 OVERLAP_A = [1, 2, 3, 5, 8, 13, 21, 40, 80]
 OVERLAP_B = [1, 2, 3, 5, 9]
+OVERLAP_B_LONG = [1, 2, 3, 5, 9, 12, 16, 20, 25, 30, 36, 44]
 
 
 def _overlap_shard(run, pairs):
@@ -807,8 +817,11 @@ def _overlap_shard(run, pairs):
     scratch objects) when another evaluation is in between"""
     install_points()
     for x, y in pairs:
+        text_y = POOL[y[0] % len(POOL)]
+        deep_b = 'memorize' in text_y or 'defaultIfEmpty' in text_y or \
+            '.join($src' in text_y
         for a in OVERLAP_A:
-            for b in OVERLAP_B:
+            for b in (OVERLAP_B_LONG if deep_b else OVERLAP_B):
                 check_scheduled(run, {
                     'kind': 'scheduled',
                     'threads': [[list(x)], [list(y)]],
@@ -842,6 +855,11 @@ def run(run):
           for i in range(n)]
     ov += [((i, 0), ((i * 5 + 1 + run.seed) % n, 1))
            for i in range(0, n, 1 if full else 3)]
+    # a short statement that starts first and ends while a statement that
+    # remembers an iterator is between two passes over it
+    mem = [i for i, t in enumerate(POOL) if 'memorize' in t or
+           'defaultIfEmpty' in t or '.join($src' in t]
+    ov += [((s_, 0), (i, 1)) for i in mem for s_ in (0, 3)]
     run.shards(_overlap_shard, [(ov[i::16],) for i in range(16)],
                watchdog=900)
     k = 8
